@@ -699,6 +699,8 @@ func (p *Parser) GroupByClause() ([]ColumnReference, error) {
 			break
 		}
 		ret = append(ret, cr)
+		// columns may be separated by commas
+		p.match(COMMA)
 	}
 
 	return ret, nil
